@@ -339,6 +339,8 @@ class FakeFile:
 
     def read(self):
         c = self.f.content
+        if "b" in self.mode and isinstance(c, list) and (not c or all("array" in r for r in c)):
+            return RecordsBytes(c, self.f.size)
         if isinstance(c, list) and all("text" in r for r in c):
             return "".join(r["text"] for r in c) if "b" not in self.mode else b"".join(r["text"] for r in c)
         if isinstance(c, (str, bytes)):
@@ -356,6 +358,14 @@ class FakeFile:
 
     def __exit__(self, *a):
         self.close()
+
+
+class RecordsBytes:
+    """what reading a binary file of tofile-records returns; np.frombuffer (facade) turns it into an array"""
+
+    def __init__(self, records, size):
+        self.records = records
+        self.size = size
 
 
 def fake_open(path, mode="r", *a, **k):
